@@ -5,7 +5,7 @@ E   V2FLazyInit (double-checked locking of the lazy vertex index), all interleav
 V   hook traces of the real Mesh.getVertexToFace (2-4 readers, with and without a scheduler gate that
     releases late readers while the builder is inside the fill loop) validated by V2FTrace; the harness
     is built with -race, answers are compared with sequential use.
-V   free-running scenarios under the race detector at GOMAXPROCS 2/4/16: every race report is a
+V   free-running scenarios under the race detector at GOMAXPROCS 2/4/16/1: every race report is a
     violation keyed by the two racing source locations.
 """
 import glob
@@ -95,7 +95,7 @@ def run(ctx):
     quick = ctx.tier == "quick"
     ctx.rule = ("protocol specs: all interleavings of 3 readers; hook traces: 2-4 readers x 5 meshes x (free / gated) x "
                 "rounds, non-trivial = at least two readers found no index at their first load; stress scenarios under "
-                "the race detector at GOMAXPROCS 2, 4, 16")
+                "the race detector at GOMAXPROCS 2, 4, 16, 1")
     ctx.assumptions = ["the race detector only sees executed interleavings; the all-interleavings part is the exhaustive "
                        "model checking of the protocol specs plus conformance of the hook traces to them"]
     # E
